@@ -3,62 +3,19 @@
 package main
 
 import (
-	"context"
-	"crypto/hmac"
-	"crypto/sha256"
 	"encoding/binary"
 	"fmt"
 	"math/rand"
 	"net"
 	"os"
-	"sync"
 	"time"
 
-	"github.com/chihaya/chihaya/bittorrent"
 	"github.com/chihaya/chihaya/frontend/udp"
 	"github.com/chihaya/chihaya/pkg/timecache"
 )
 
 func init() {
 	props["C10"] = &propDef{glue: "G10", ctype: "case10", chk: "chk10", stream: c10Stream, replay: c10Replay, shard: 400}
-}
-
-// ---- HMAC oracle answers (Go standard library, not the minio implementation the tracker uses)
-
-type macEntry struct{ k, m []byte }
-
-func c10Mac(k, m []byte) []byte {
-	h := hmac.New(sha256.New, k)
-	h.Write(m)
-	return h.Sum(nil)
-}
-
-func c10Macs(es []macEntry) string {
-	var items []string
-	seen := map[string]bool{}
-	for _, e := range es {
-		id := hx(e.k) + "|" + hx(e.m)
-		if seen[id] {
-			continue
-		}
-		seen[id] = true
-		items = append(items, fmt.Sprintf("(%s, %s, %s)", cB(e.k), cB(e.m), cB(c10Mac(e.k, e.m))))
-	}
-	return cList(items)
-}
-
-func cat(a []byte, b ...[]byte) []byte {
-	r := append([]byte{}, a...)
-	for _, x := range b {
-		r = append(r, x...)
-	}
-	return r
-}
-
-func ts4(ns int64) []byte {
-	b := make([]byte, 4)
-	binary.BigEndian.PutUint32(b, uint32(time.Unix(0, ns).Unix()))
-	return b
 }
 
 // ---- function level
@@ -97,56 +54,6 @@ func c10Gen(o *Out, kind string, key, ip []byte, now int64) []byte {
 }
 
 // ---- dispatcher level
-
-type spyLogic struct {
-	mu      sync.Mutex
-	handles int
-	afters  chan struct{}
-}
-
-func (s *spyLogic) HandleAnnounce(ctx context.Context, r *bittorrent.AnnounceRequest) (context.Context, *bittorrent.AnnounceResponse, error) {
-	s.mu.Lock()
-	s.handles++
-	s.mu.Unlock()
-	return ctx, &bittorrent.AnnounceResponse{Interval: 30 * time.Minute, MinInterval: 15 * time.Minute, Complete: 1, Incomplete: 2}, nil
-}
-func (s *spyLogic) AfterAnnounce(context.Context, *bittorrent.AnnounceRequest, *bittorrent.AnnounceResponse) {
-	s.afters <- struct{}{}
-}
-func (s *spyLogic) HandleScrape(ctx context.Context, r *bittorrent.ScrapeRequest) (context.Context, *bittorrent.ScrapeResponse, error) {
-	s.mu.Lock()
-	s.handles++
-	s.mu.Unlock()
-	resp := &bittorrent.ScrapeResponse{}
-	for _, ih := range r.InfoHashes {
-		resp.Files = append(resp.Files, bittorrent.Scrape{InfoHash: ih, Complete: 1, Incomplete: 2})
-	}
-	return ctx, resp, nil
-}
-func (s *spyLogic) AfterScrape(context.Context, *bittorrent.ScrapeRequest, *bittorrent.ScrapeResponse) {
-	s.afters <- struct{}{}
-}
-
-type c10Front struct {
-	f   *udp.Frontend
-	spy *spyLogic
-}
-
-var c10Fronts = map[string]*c10Front{}
-
-// c10Frontend returns the offline frontend named inst with the given key and skew.
-func c10Frontend(inst string, key []byte, skew int64) *c10Front {
-	id := fmt.Sprintf("%s|%x|%d", inst, key, skew)
-	if fr, ok := c10Fronts[id]; ok {
-		return fr
-	}
-	spy := &spyLogic{afters: make(chan struct{}, 16)}
-	f := udp.VerifNewOffline(spy, udp.Config{PrivateKey: string(key), MaxClockSkew: time.Duration(skew),
-		ParseOptions: udp.ParseOptions{MaxNumWant: 100, DefaultNumWant: 50, MaxScrapeInfoHashes: 50}})
-	fr := &c10Front{f, spy}
-	c10Fronts[id] = fr
-	return fr
-}
 
 // c10Disp runs one datagram through handleRequest and records what came back.
 func c10Disp(o *Out, kind, inst string, key []byte, skew, now int64, ip, packet []byte, bodyOK bool) [][]byte {
@@ -228,8 +135,6 @@ func c10Scrape(rng *rand.Rand, connID []byte, k int) []byte {
 	binary.BigEndian.PutUint32(p[8:12], 2)
 	return p
 }
-
-const sec = int64(time.Second)
 
 func c10Stream(o *Out, rng *rand.Rand, n int) {
 	keys := [][]byte{[]byte("k"), []byte("7fPpbXx3gzmrsmVXA5WT4lDCOtTCnEXpvQLjXa9GFeGL1sPoN2yVtTtKiUmaBlOb"), {0, 255, 1, 2}, []byte("another key")}
